@@ -728,6 +728,11 @@ pub struct EvictCase {
     /// wall clock step (seconds) applied mid-run
     pub clock_step_s: i64,
     pub run_s: u64,
+    /// (key, virtual ms after start) fresh packets published while the evict task runs; instants
+    /// are biased onto the eviction ticks so that a publish lands between the evict task's
+    /// snapshot and its expiry checks
+    #[serde(default)]
+    pub republish: Vec<(u8, u64)>,
 }
 
 pub struct C39;
@@ -753,7 +758,22 @@ impl Typed for C39 {
                 cfg: gen_cfg(rng),
                 publishes: vec![],
                 disk_fault: None,
-                eviction: Some(EvictCase { retention_s, interval_s: *rng.pick(&[1u64, 10, 30]), ages_s, clock_step_s: if rng.chance(1, 3) { rng.range(0, 120) as i64 - 60 } else { 0 }, run_s: rng.range(5, 100) }),
+                eviction: Some({
+                    let interval_s = *rng.pick(&[1u64, 10, 30]);
+                    let run_s = rng.range(5, 100);
+                    let republish = (0..rng.range(0, 3))
+                        .map(|_| {
+                            let tick = rng.range(0, run_s / interval_s) * interval_s * 1000;
+                            let at = match rng.below(4) {
+                                0 => rng.range(0, run_s * 1000),
+                                1 => tick + rng.range(0, 2),
+                                _ => tick,
+                            };
+                            (rng.range(0, 2) as u8, at)
+                        })
+                        .collect();
+                    EvictCase { retention_s, interval_s, ages_s, clock_step_s: if rng.chance(1, 3) { rng.range(0, 120) as i64 - 60 } else { 0 }, run_s, republish }
+                }),
                 seed: rng.next_u64(),
             }
         } else {
@@ -981,6 +1001,35 @@ fn run_eviction(case: &DurCase, e: &EvictCase, ctx: &Ctx) {
             let en = newest.entry(*k).or_insert(*ts);
             *en = (*en).max(*ts);
         }
+        // fresh publishes racing the evict task
+        let republished: Arc<Mutex<Vec<(u8, u64)>>> = Default::default();
+        let server = Arc::new(server);
+        for (n, (k, at_ms)) in e.republish.iter().enumerate() {
+            let (k, at_ms) = (*k, *at_ms);
+            let server = server.clone();
+            let hook_wall = hook.0.clone();
+            let republished = republished.clone();
+            let ctx = ctx.clone();
+            let n_old = e.ages_s.len() as u32;
+            tokio::task::spawn_local(async move {
+                tokio::time::sleep_until(t0 + Duration::from_millis(at_ms)).await;
+                // one second old by the store's own (simulated) wall clock
+                let now = {
+                    let w = hook_wall.wall.lock().unwrap();
+                    let (base, at, skew) = w.expect("wall clock installed");
+                    base as i128 + at.elapsed().as_micros() as i128 + skew as i128
+                };
+                let ts = (now - 1_000_000) as u64;
+                let p = Publish { signer: k, path_key: None, ts: ts as i64 - EPOCH0 as i64, recs: vec![Rec { label: 0, zone: Zone::Own, kind: RecKind::Txt }], corrupt_signature: false, truncate_body: false };
+                let built = build_packet(&p, n_old + 10 + n as u32);
+                let status = server.pkarr_put(&z32(k), Bytes::from(built.bytes[32..].to_vec())).await;
+                ctx.ev(format!("republish k{k} at {at_ms} ms ts={ts} -> {status}"));
+                if (200..300).contains(&status) {
+                    republished.lock().unwrap().push((k, ts));
+                    ctx.count("probe.republish_during_eviction");
+                }
+            });
+        }
         tokio::time::sleep(Duration::from_secs(e.run_s / 2)).await;
         if e.clock_step_s != 0 {
             let mut w = hook.0.wall.lock().unwrap();
@@ -993,6 +1042,10 @@ fn run_eviction(case: &DurCase, e: &EvictCase, ctx: &Ctx) {
         // settle: faults stopped; give eviction one full cycle
         let settle = e.interval_s + case.cfg.max_batch_time_ms / 1000 + 2;
         tokio::time::sleep(Duration::from_secs(settle)).await;
+        for (k, ts) in republished.lock().unwrap().iter() {
+            let en = newest.entry(*k).or_insert(*ts);
+            *en = (*en).max(*ts);
+        }
         let skew = e.clock_step_s * 1_000_000;
         // safety: at removal time the packet was older than the cut-off
         for (data, at) in evicted.lock().unwrap().iter() {
@@ -1027,7 +1080,7 @@ fn run_eviction(case: &DurCase, e: &EvictCase, ctx: &Ctx) {
             }
             // (every eviction event was checked against the cut-off at its own removal time above;
             // with a clock stepping backwards a legitimately evicted packet can look young again)
-            let was_evicted = evicted.lock().unwrap().iter().any(|(d, _)| d.starts_with(&z32(*k)));
+            let was_evicted = evicted.lock().unwrap().iter().any(|(d, _)| *d == format!("{} {}", z32(*k), ts));
             if age_us < e.retention_s as i128 * 1_000_000 - 2_000_000 && status != 200 && !was_evicted {
                 ctx.violate("unexpired-packet-missing", format!("key k{k}: packet is {} s old (retention {} s) but no longer served", age_us / 1_000_000, e.retention_s));
                 return;
@@ -1090,13 +1143,13 @@ macro_rules! prop {
 
 prop!(C36, "C36", "exploration",
     "case = swarm config (batch size 1..8, batch time 1..1000 ms, zone cache capacity 1..4) + 2..7 publishes over 3 keys: records inside the signer's zone / under another key's zone / without key label, types TXT A AAAA SOA NS, path key != signer, corrupted signature, truncated body; after every publish all 3 keys x 4 names x 5 types are queried over DNS and pkarr GET; every published record carries a unique marker in its rdata; non-trivial = at least two accepted publishes; distinct = distinct history hash",
-    400, 60_000, vec!["static SOA/NS records of the origin are not marked and not checked".into()]);
+    6_000, 400_000, vec!["static SOA/NS records of the origin are not marked and not checked".into()]);
 prop!(C37, "C37", "exploration",
     "case = swarm config + 2..9 publishes with timestamps drawn from a pool of two values (+0/+1 us) so equal timestamps (payload tie-break) are common, mostly for one key; after every publish the store's update report (store.upsert event) is compared with a sequential max-by-(timestamp, payload) model and all answers and GETs with the model's stored packet; non-trivial = at least two accepted publishes; distinct = distinct history hash",
-    500, 80_000, vec!["'reports an update' is observed at the store's upsert acknowledgement (hook event), since the HTTP handler answers 204 either way".into()]);
+    8_000, 400_000, vec!["'reports an update' is observed at the store's upsert acknowledgement (hook event), since the HTTP handler answers 204 either way".into()]);
 prop!(C38, "C38", "exploration",
     "case = swarm config + a publisher task (1..4 publishes of increasing timestamp for one key) racing a resolver task (2..8 DNS lookups or pkarr GETs) with seeded gaps (none / yields / ms) and seeded yields at the two in-tree schedule points (after the store read in resolve, after the upsert acknowledgement in insert); non-trivial = some lookup was invoked before a later acknowledgement; distinct = distinct history hash",
-    3_000, 400_000, vec!["single-threaded interleavings at await points plus the two named schedule points".into()]);
+    15_000, 1_000_000, vec!["single-threaded interleavings at await points plus the two named schedule points".into()]);
 prop!(C39, "C39", "fault_enumeration",
-    "two kinds of case. Crash: swarm config + 1..5 publishes with gaps; the live run logs every disk write/set_len/sync; afterwards a crash is simulated after EVERY prefix of that log (durable image + PRNG subset of unsynced writes, possibly torn at 512-byte sectors), the image is reopened through redb recovery and both tables are checked (exhaustive over crash points per run, runs sampled); optionally one EIO/ENOSPC is injected in the live run. Eviction: 1..5 packets with ages on both sides of the retention cut-off, wall-clock step mid-run; every eviction event is checked against the cut-off at removal time and after a settle every expired packet must be gone and every unexpired one still served. non-trivial = >10 disk ops and >=1 commit, or any eviction case; distinct = distinct history hash",
-    250, 30_000, vec!["lying disks (sync returns Ok without persisting) are not simulated".into(), "an image crashed before the database's very first commit may be unopenable and is skipped (counted)".into(), "evaluations counts runs; fault.crash_points counts the individual crash images checked".into()]);
+    "two kinds of case. Crash: swarm config + 1..5 publishes with gaps; the live run logs every disk write/set_len/sync; afterwards a crash is simulated after EVERY prefix of that log (durable image + PRNG subset of unsynced writes, possibly torn at 512-byte sectors), the image is reopened through redb recovery and both tables are checked (exhaustive over crash points per run, runs sampled); optionally one EIO/ENOSPC is injected in the live run. Eviction: 1..5 packets with ages on both sides of the retention cut-off, wall-clock step mid-run; fresh republishes for the same keys land on the eviction ticks (between the evict task's snapshot and its expiry checks); every eviction event is checked against the cut-off at removal time and after a settle every expired packet must be gone and every unexpired one still served. non-trivial = >10 disk ops and >=1 commit, or any eviction case; distinct = distinct history hash",
+    4_000, 300_000, vec!["lying disks (sync returns Ok without persisting) are not simulated".into(), "an image crashed before the database's very first commit may be unopenable and is skipped (counted)".into(), "evaluations counts runs; fault.crash_points counts the individual crash images checked".into()]);
